@@ -88,6 +88,8 @@ struct IWorld
     // fixed vector and append the raw output bytes. Only valid once a solver has been constructed
     // (shift wrappers are factorized by the solver constructor).
     virtual void probe(std::vector<unsigned char>& out) = 0;
+    // apply one method of a REAL wrapper, bypassing the seam (harness use only: no event, no fault)
+    virtual void apply_inner(int target, int method, const VecL& x, VecL& y) { (void) target; (void) method; (void) x; (void) y; }
 };
 
 // dispatch on (family, scalar); defined in world/registry.cpp, implemented by the family TUs
